@@ -563,13 +563,30 @@ class C14(Prop):
     lean_modules = ["EaselModel.Props.C14"]
     lean_exe = "c14_driver"
     harness = "h_getopts.c"
-    theorems = ["EaselModel.Props.C14." + t for t in ()]
-    claimed = False
+    theorems = ["EaselModel.Props.C14." + t for t in (
+        "sources_are_setting_sequences_env", "sources_are_setting_sequences_cfg", "sources_are_setting_sequences_cmdline",
+        "successful_run_is_history", "last_setter_wins", "untouched_keeps_state", "fresh_object_all_default",
+        "same_source_twice_is_usage_error", "set_after_toggle_by_same_source_is_usage_error",
+        "set_option_spec", "toggle_switches_others_off",
+        "abbrev_full_name_resolves", "abbrev_resolves_iff_unique", "abbrev_ambiguous_iff_two", "abbrev_unknown_iff",
+        "dashdash_ends_options", "first_nonoption_ends_options", "plus_word_is_argument", "args_returned_in_order", "getArg_is_argv_from_optind",
+        "cmdline_ends_cleanly", "spoof_ends_cleanly", "environment_ends_cleanly", "configfile_ends_cleanly",
+        "rejected_setting_changes_nothing", "unknown_long_option", "ambiguous_long_option", "argument_to_flag",
+        "missing_argument_long", "unknown_short_option", "verifyConfig_ok_iff_consistent",
+        "isUsed_iff", "isDefault_of_default_setter", "not_default_has_setter", "demo_wf")]
+    claimed = True
     diverge_is_violation = True    # every op is a deterministic documented function of (table, sources so far)
     technique = ("Lean 4 proof about an executable hand model of esl_getopts.c + exact differential correspondence of that model with the "
                  "ASan/UBSan-built library over random option tables x argv x environment x config files x processing orders")
-    level_text = ""
-    level_note = ""
+    level_text = ("Theorems for every well-formed option table, every argv / environment / config-file content and every processing order, about the executable model: "
+                  "each source is a table-only parse followed by a run of set_option calls that stops at the first usage error; after any history the last call touching an option decides its value and setter, untouched options keep their defaults, "
+                  "a second setting by the same source is a usage error; a successful set_option switches off exactly the other listed toggle members that were on and records the setter; "
+                  "an abbreviation resolves iff it is a full name or the prefix of exactly one name (ambiguous iff two, unknown iff none); '--' and the first non-option word end the options and GetArg returns the rest in order; "
+                  "every Process* call ends as success-without-message or eslESYNTAX-with-message (never a crash or internal exception), rejected settings change nothing; VerifyConfig succeeds iff all requirements and incompatibilities hold; "
+                  "IsUsed = not IsDefault and IsOn. The hand model is tied to the working tree by an exact differential run (12000 random tables x sources per quick run); a divergence or monitor failure is a concrete failing input.")
+    level_note = ("Trusted: Lean kernel + propext/Classical.choice/Quot.sound; fidelity of the hand model (incl. its strtol/strtod/strtok/fgets models) is checked, not proved, by the differential run; "
+                  "'+/- prefixed booleans' clause is vacuous in this version (a '+' word is an argument: theorem plus_word_is_argument); well-formed tables only; reals restricted to <= 6 significant digits; "
+                  "that parse_rangestring gives the intended bounds for documented range strings is checked by examples and the differential run, not by a general theorem.")
     trusted_base = ["hand model of esl_getopts.c (+ esl_str_IsInteger/IsReal, esl_strtok from easel.c) tied by exact differential run (h_getopts.c, ASan+UBSan build of the working tree)",
                     "Lean compiler/runtime for the executable driver", "gcc, glibc strtol/strtod/getenv/fgets"]
     assumptions = [
@@ -579,6 +596,7 @@ class C14(Prop):
         "bytes are ASCII (isspace/char comparison on bytes >= 0x80 not modelled)",
         "in a config file an argument after a boolean option is ignored by the code (documented format: 'an option and an argument (if the option takes an argument)'); modelled as is",
         "esl_opt_ProcessSpoof called twice on one object (API misuse: the error path frees the first spoof's argv that g->val/argv still point into) is not generated",
+        "memory leaks are not part of C14: the harness carries a LeakSanitizer suppression for esl_opt_ProcessConfigfile, whose line buffer is not freed on its usage-error returns (fix proposed: /var/tmp/fixes-proposed/C14-cfgfile-linebuf-leak.patch); every other leak is still reported as a fault",
         "allocation failure paths, esl_opt_DisplayHelp, esl_getopts_Dump, CreateOptsLine, SpoofCmdline, CreateDefaultApp, Reuse are not modelled",
     ]
     rule = ("case = random well-formed option table (1-12 options) + 1-5 sources (cmdline/spoof/env/config file) in random order + VerifyConfig + full dump; "
